@@ -130,6 +130,16 @@ class Report:
         for v, k in listed:
             lines.append(f"KNOWN-FINDING: property={self.prop_id} {v['rule']} {v['construct']} ({v['loc']}) "
                          f"-- {k.get('what', v.get('what', ''))}")
+        # one report per distinct finding: a rule that judges a function path by path meets the same construct once per path
+        uniq, seen_keys = [], set()
+        for v in new:
+            key = (v["rule"], v["construct"], v.get("detail", ""), v.get("found", ""), v["loc"])
+            if key in seen_keys:
+                v["duplicate_of_earlier_path"] = True
+                continue
+            seen_keys.add(key)
+            uniq.append(v)
+        new = uniq
         replay_paths = []
         if new and self.write:
             os.makedirs(REPLAY_DIR, exist_ok=True)
